@@ -224,7 +224,7 @@ PROPERTIES = {
             "every IR statement reports all objects it writes / reads through visit_objects: decided class by class by the mechanical enumeration contracts.c07_visit.visit_completeness (real constructors, marker objects, report + replace); Event / EventGroup / Statemachine / Sequential are covered through their parts only",
             "NOT decided: driver sets recomputed from the emitted text; placement of inline entities by the tracer; VhdlScope.declare's sibling-scope rule and ConvertInstance.apply's concurrent-context rules have no contract yet",
         ],
-        "extra": ["contracts.c07_visit.visit_completeness"],
+        "extra": ["contracts.c07_visit.visit_completeness", "contracts.c07_visit.block_walks"],
         "canaries": [
             {"name": "push-is-a-write", "contract": "cohdl._core._ir._repr:EntityTemplate.__init__", "case": "ctx-event:signal:PUSH", "file": "cohdl/_core/_ir/_repr.py",
              "old": "            if access is AccessFlags.WRITE or access is AccessFlags.PUSH:\n                if isinstance(obj, Port) and obj.is_input():", "new": "            if access is AccessFlags.WRITE:\n                if isinstance(obj, Port) and obj.is_input():"},
@@ -236,10 +236,11 @@ PROPERTIES = {
         "explanation": "the definite-assignment analysis of compiler-generated intermediates (detect_uninitialized_temporaries / search_invalid_temporaries) is proved sound against the textbook definite-assignment semantics of if / case (with and without default) / sequence by structural induction: sidecar loop invariants for the statement loop and the case-branch loop, the function's own contract as induction hypothesis for recursive calls, sets of object identities as z3 sets; every read (direct or through a reference path) is shown to reach the check; cleanup_unused is proved to remove only assignments whose root is read nowhere; StatemachineContext._check_temporaries is proved to accept a state only if the first access to every intermediate is a write",
         "assumptions": COMMON_ASSUME + [
             "id() is injective on live objects; Python sets of ids are mathematical sets",
-            "IR statements report every object they read / write through visit_objects (per-class completeness is the subject of the C07 contracts)",
+            "IR statements report every object they read / write through visit_objects and store the replacement a visitor returns: decided per class by the enumeration contracts.c07_visit.visit_completeness, which runs with this property too (the cleanup passes replace objects through it)",
             "temporaries marked maybe_uninitialized are exempt from the analysis by design (the user opted out)",
             "NOT decided: read/write order recomputed on the emitted process text; cleanup_bool_cast (cosmetic pass) is under a bounded structural check only",
         ],
+        "extra": ["contracts.c07_visit.visit_completeness"],
         "canaries": [
             {"name": "case-intersection", "contract": "cohdl._compiler.frontend._generate_ir:ConvertInstance.detect_uninitialized_temporaries", "case": "any-context", "file": "cohdl/_compiler/frontend/_generate_ir.py",
              "old": "                            always_defined &= branch_temporaries", "new": "                            always_defined.difference_update(branch_temporaries)"},
@@ -305,7 +306,7 @@ PROPERTIES = {
         ],
     },
     "C09": {
-        "modules": C05_MODULES + ["contracts.c02_replace", "contracts.c02_frontend"],
+        "modules": C05_MODULES + ["contracts.c02_replace", "contracts.c02_frontend", "contracts.c13_types", "contracts.c13_views"],
         "level": "proof",
         "explanation": "every arithmetic / shift / comparison / conversion method of Unsigned, Signed, Integer and cohdl.op.truncdiv/rem is proved equal (kind, width, value; rejections) to the documented operator semantics for all widths and values, from the real source; bit-level primitives are assumed and checked by bounded native enumeration",
         "assumptions": COMMON_ASSUME + BITLEVEL_ASSUME + VHDL_ASSUME + [
